@@ -31,6 +31,9 @@ def dispatch (op : String) : Option (RM Res) :=
   | "c07" => some opC07
   | "coll" => some opColl
   | "offs" => some opOffs
+  | "h_dense" => some opHDense
+  | "plan" => some opPlan
+  | "plan_sched" => some opPlanSched
   | "h_rrt" => some opHRrt
   | "rrt" => some opRrt
   | "rrt_cancel" => some opRrtCancel
